@@ -107,6 +107,12 @@ def replay(rec):
     s = real_sempler()
     u = s.utils
     P = numpy.array(rec['inputs']['P'], dtype=int)
+
+    def ro():
+        # a correct function never writes to its argument: with a read-only copy a write shows up as an exception
+        c = P.copy()
+        c.setflags(write=False)
+        return c
     p = len(P)
     pat = tuple(tuple(int(x) for x in r) for r in P.tolist())
     E = K.extensions(pat)
@@ -114,7 +120,7 @@ def replay(rec):
     try:
         if rec['call'] == 'pdag':
             try:
-                g = u.pdag_to_dag(P.copy())
+                g = u.pdag_to_dag(ro())
                 got = tuple(tuple(1 if x != 0 else 0 for x in r) for r in g.tolist())
                 if not E:
                     bad.append('pdag_to_dag returned %s although no extension exists' % (got,))
@@ -123,10 +129,10 @@ def replay(rec):
             except ValueError:
                 if E:
                     bad.append('pdag_to_dag raised ValueError although %d extensions exist' % len(E))
-            if bool(u.has_consistent_extension(P.copy())) != bool(E):
+            if bool(u.has_consistent_extension(ro())) != bool(E):
                 bad.append('has_consistent_extension wrong')
         if E:
-            m = u.maximally_orient(P.copy())
+            m = u.maximally_orient(ro())
             want = K.union_graph(E, p)
             if m.shape != (p, p) or any(m[i][j] != want[i][j] for i in range(p) for j in range(p)):
                 bad.append('maximally_orient(%s) = %s but the extensions agree exactly on %s' % (P.tolist(), m.tolist(), [list(r) for r in want]))
